@@ -6,6 +6,7 @@ import dataclasses
 import difflib
 import functools
 import heapq
+import keyword
 import re
 import textwrap
 from types import MappingProxyType
@@ -618,6 +619,29 @@ def _get_charnos(obj: _Rewrite, source: str) -> core.Range:
     return core.get_charnos(new, source)
 
 
+def _without_call_parentheses(source: str, generator_range: core.Range) -> core.Range:
+    """Exclude the parentheses of a generator expression, if they are those of a call.
+
+    A generator expression that is the only argument of a call, like in sum(x for x in y), shares
+    its parentheses with the call, so they must stay when it is replaced by something else.
+    """
+    start, end = generator_range
+    if source[start : start + 1] != "(" or source[end - 1 : end] != ")":
+        return generator_range
+
+    preceding = source[:start].rstrip(" \t")
+    preceding_word = re.findall(r"\w+\Z", preceding)
+    if preceding_word:
+        is_call = not keyword.iskeyword(preceding_word[0])
+    else:
+        is_call = preceding.endswith((")", "]"))
+
+    if is_call:
+        return core.Range(start + 1, end - 1)
+
+    return generator_range
+
+
 @dataclasses.dataclass(frozen=True, order=True, eq=True)
 class _Transaction:
     group_number: int
@@ -641,7 +665,10 @@ def _schedule_rewrites(
             raise ValueError(f"Invalid tuple: {tup!r}")
 
         if isinstance(before, ast.AST):
+            is_generator = isinstance(before, ast.GeneratorExp)
             before = core.get_charnos(before, source)
+            if is_generator and isinstance(after, ast.AST) and not isinstance(after, ast.GeneratorExp):
+                before = _without_call_parentheses(source, before)
         elif before is None:
             before = core.get_charnos(after, source)
 
@@ -893,6 +920,8 @@ def find_replace(
         range_start = min(r[0] for r in ranges)
         range_end = max(r[1] for r in ranges)
         replacement_range = core.Range(range_start, range_end)
+        if isinstance(combined_match[0], ast.GeneratorExp):
+            replacement_range = _without_call_parentheses(source, replacement_range)
 
         template_replacement = core.format_template(replace, combined_match, **callables)
 
